@@ -20,6 +20,7 @@ import re as _re
 _RANDOM_LABEL = _re.compile(r'[0-9a-f]{32}')
 # labels the generators created that do not look random (fixed / derived names): hosts reuse them on purpose
 FIXED_LABELS = set(['new_zero', 'zero', 'one', 'inf_label', 'carry', 'tmp', 'res'])
+NUMBERED = set()
 CALLER_LABELS = set()   # labels the workload itself asked for (result_labels=...): not names chosen by the library
 GENERATED = []   # circuits returned by generate_* (kept alive; the workload edits them as their owner would)
 AIG_FORBIDDEN = {'XOR', 'NXOR'}
@@ -146,6 +147,13 @@ def check_call(api, before, circuit, operands, outputs, fn, *, weighted=None, ba
         for l in new_gates:
             if not _RANDOM_LABEL.search(l) and l not in CALLER_LABELS and len(FIXED_LABELS) < 200:
                 FIXED_LABELS.add(l)
+            if not _RANDOM_LABEL.search(l) and l not in CALLER_LABELS:
+                # names numbered by a counter: the numbers that would come next are names a host may well own already
+                # (a circuit made earlier, in another process, by the same generator)
+                m_ = _re.match(r'^(.*?)(\d+)$', l)
+                if m_ and len(NUMBERED) < 600:
+                    for dlt in range(1, 60):
+                        NUMBERED.add(m_.group(1) + str(int(m_.group(2)) + dlt))
     if basis is not None:
         b = basis.upper() if isinstance(basis, str) else basis.value
         if b == 'AIG':
@@ -212,6 +220,47 @@ def check_call(api, before, circuit, operands, outputs, fn, *, weighted=None, ba
 
 # ------------------------------------------------------------------ host circuits
 
+ITER_REG = {}
+_KEEP = []
+
+
+def flavour(rng, seq, ctx=None):
+    """The same operand labels as any of the iterables the signature (Iterable[Label]) admits: list, tuple, generator
+    expression, iterator, map object.  One-shot flavours are announced through CUR['intended_operands'] by the caller,
+    because a monitor must not iterate them."""
+    k = rng.choice(['list', 'list', 'list', 'tuple', 'generator', 'iter', 'map'])
+    seq = list(seq)
+    if k == 'list':
+        return seq
+    if k == 'tuple':
+        return tuple(seq)
+    if ctx is not None:
+        ctx.count('operands_as_one_shot_iterable')
+    if k == 'generator':
+        it = (x for x in seq)
+    elif k == 'iter':
+        it = iter(seq)
+    else:
+        it = map(lambda x: x, seq)
+    ITER_REG[id(it)] = seq
+    _KEEP.append(it)      # the object stays alive (so its id cannot be reused) exactly as long as it is registered
+    while len(_KEEP) > 64:
+        old = _KEEP.pop(0)
+        ITER_REG.pop(id(old), None)
+    return it
+
+
+def operand_list(x, pos):
+    """Labels of operand number `pos` for the oracle: the argument itself when it can be read again, otherwise what the
+    workload announced."""
+    if isinstance(x, (list, tuple)):
+        return list(x)
+    intended = CUR.get('intended_operands')
+    if intended is not None and pos < len(intended):
+        return list(intended[pos])
+    return None
+
+
 _LIB_STRINGS = None
 
 
@@ -240,6 +289,15 @@ def make_host(rng, k_inputs=None, n_gates=None):
                                  'LIFF', 'RIFF'], max_arity=3,
                           n_out=rng.randint(0, 2), const_operands=False, label_style=rng.choice(['plain', 'digits']))
     lib = library_strings()
+    if NUMBERED and rng.random() < 0.3:
+        pool_n = sorted(NUMBERED)
+        mp = {}
+        for l in rng.sample(list(net.gates), min(len(net.gates), rng.randint(1, 4))):
+            nl = rng.choice(pool_n)
+            if nl not in net.gates and nl not in mp.values():
+                mp[l] = nl
+        if mp:
+            net = netgen.relabel(net, mp)
     if rng.random() < 0.3 and (FIXED_LABELS or lib):
         # a host that happens to use names the generators themselves like to use (with other functions), or the
         # library's own exported string constants (sentinels, prefixes) as labels
@@ -273,8 +331,35 @@ def attach(module_name, fname, pre, post, on_raise=None):
     """Attach at the defining module and rebind the re-exported names."""
     mod = importlib.import_module(module_name)
     ctx = CUR['ctx']
-    w = monitor.attach(mod, fname, pre=monitor.outer_only(pre), post=monitor.outer_only(post),
-                       on_raise=on_raise, counter=ctx.moncounter(fname))
+
+    # the monitors see one-shot iterables (generator / iterator / map arguments) as the label lists the workload
+    # registered for them; the function under test gets the real one-shot object
+    def _sub(args, kwargs):
+        a2 = tuple(ITER_REG.get(id(a), a) if hasattr(a, '__next__') else a for a in args)
+        k2 = {k: (ITER_REG.get(id(v), v) if hasattr(v, '__next__') else v) for k, v in kwargs.items()}
+        return a2, k2
+
+    def _freeze(a2, k2):
+        # list arguments as they were when the call was made (a caller may pass the circuit's own live lists, which
+        # grow during the call)
+        return (tuple(list(a) if isinstance(a, list) else a for a in a2),
+                {k: (list(v) if isinstance(v, list) else v) for k, v in k2.items()})
+
+    def pre2(args, kwargs, _pre=pre):
+        a2, k2 = _sub(args, kwargs)
+        fa, fk = _freeze(a2, k2)
+        return {'__st': _pre(a2, k2), '__args': fa, '__kwargs': fk}
+
+    def post2(st, args, kwargs, result, _post=post):
+        return _post(st['__st'], st['__args'], st['__kwargs'], result)
+
+    on_raise2 = None
+    if on_raise is not None:
+        def on_raise2(st, args, kwargs, exc, _r=on_raise):
+            return _r(st['__st'], st['__args'], st['__kwargs'], exc)
+
+    w = monitor.attach(mod, fname, pre=monitor.outer_only(pre2), post=monitor.outer_only(post2),
+                       on_raise=on_raise2, counter=ctx.moncounter(fname))
     orig = w.__vt_original__
     for pk in ('cirbo.synthesis.generation.arithmetics', 'cirbo.synthesis.generation', 'cirbo.synthesis.generation.generation',
                'cirbo.synthesis.generation.arithmetics.multiplication', 'cirbo.synthesis.generation.arithmetics.square',
